@@ -71,6 +71,24 @@ pub fn classify_common<S: Subject>(sim: &Sim<S>, stats: &mut Stats) {
     if actors_with_dots(&sim.metas) >= 3 {
         stats.class("3+ actors issued dots");
     }
+    {
+        // widest knowledge: the largest number of distinct actors whose dots one replica knows
+        let widest = sim.reps.iter().map(|r| {
+            let mut a: Vec<u8> = bits_iter(r.know).filter_map(|o| sim.metas[o].sem.dot().map(|d| d.0)).collect();
+            a.sort();
+            a.dedup();
+            a.len()
+        }).max().unwrap_or(0);
+        if widest >= 8 {
+            stats.class("some replica knows updates of 8+ actors");
+        }
+        if widest >= 12 {
+            stats.class("some replica knows updates of 12+ actors");
+        }
+        if sim.ops.len() >= 60 {
+            stats.class("60+ ops in the history");
+        }
+    }
     if sim.metas.iter().any(|m| m.call.contains("EARLIER")) {
         stats.class("remove built from a stale (earlier) read context");
     }
@@ -115,6 +133,50 @@ pub fn check_model<S: Subject>(plan: &Plan, ctx: &Ctx, stats: &mut Stats, nontri
             let d = diff_on_model(&got, &want);
             if let Err(f) = judge(&sim, stats, ctx, sim.reps[r].know, &lineage(&sim, r), &d, what, r, &got, &want) {
                 return Err(fail_with(&sim, stats, f));
+            }
+        }
+    }
+    // settle twins: two fresh replicas are fed ALL ops one by one in generated orders that respect the job's delivery
+    // discipline, and compared with the model after every single op: these replicas end up knowing every actor's
+    // updates (wide clocks, many witnesses per element), which the simulated replicas of a short history rarely do
+    let all = sim.all_bits();
+    if all != 0 {
+        for round in 0..2usize {
+            let mut picks: Vec<u16> = plan.settle.iter().map(|p| if round == 0 { *p } else { !*p }).collect();
+            let rot = round * 3 % picks.len().max(1);
+            picks.rotate_left(rot);
+            let mut st = S::init();
+            let mut know: Bits = 0;
+            let mut remaining: Vec<usize> = bits_vec(all);
+            let mut pi = 0usize;
+            let mut noncausal = false;
+            while !remaining.is_empty() {
+                let el: Vec<usize> = remaining
+                    .iter()
+                    .copied()
+                    .filter(|&o| match ctx.cfg.disc {
+                        Disc::Any => true,
+                        Disc::Fifo => sim.earlier_of_author(o) & !know == 0,
+                        Disc::Causal => sim.metas[o].deps & !know == 0,
+                    })
+                    .collect();
+                let pick = picks[pi % picks.len().max(1)];
+                pi += 1;
+                let o = if ctx.cfg.newest_first && pick & 1 == 0 { *el.last().unwrap() } else { el[idx(pick, el.len())] };
+                S::apply(&mut st, sim.ops[o].clone());
+                know |= bit(o);
+                remaining.retain(|x| *x != o);
+                if !noncausal && !sim.closed(know) {
+                    noncausal = true;
+                }
+                let got = S::observe(&st);
+                let want = S::predict(&sim.metas, know).expect("subject has a model");
+                stats.observations += want.len() as u64;
+                let d = diff_on_model(&got, &want);
+                let lin = Lineage { merged: false, noncausal };
+                if let Err(f) = judge(&sim, stats, ctx, know, &lin, &d, &format!("{what} (fresh replica fed all ops one by one; after op#{o})"), 0, &got, &want) {
+                    return Err(fail_with(&sim, stats, f));
+                }
             }
         }
     }
@@ -602,5 +664,5 @@ pub type CheckFn = fn(&Plan, &Ctx, &mut Stats) -> Result<(), Fail>;
 
 pub fn mk_job(label: impl Into<String>, q: u64, t: u64, pc: PlanCfg, ctx: Ctx, f: CheckFn) -> PJob<Plan> {
     let pc2 = pc.clone();
-    job(label, q, t, move || plan_strategy(&pc), move |p: &Plan, st: &mut Stats| f(p, &ctx, st)).decoder(move |d: &[u8]| decode_plan(&pc2, d))
+    job(label, q, t, move || plan_strategy(&pc), move |p: &Plan, st: &mut Stats| f(p, &ctx, st)).decoder({ let pc = pc2.clone(); move |d: &[u8]| decode_plan(&pc, d) }).encoder(move |t: &Plan| encode_plan(&pc2, t))
 }
